@@ -291,6 +291,12 @@ func judge(c *mc.Ctx, rs *rootSpec, hist []world.Step, doCorpus bool, count bool
 	if redacted != (xs[1].Session.Environment().RedactionPolicy() == envs.RedactionPolicyURNs) {
 		add("twins-diverge:redaction-policy", "the twins report different redaction policies")
 	}
+	// the oracle's own account of the policy: a resume that was accepted (no error above) and carried
+	// an environment with the policy switched on puts the policy in force, whatever the session reports
+	if last := hist[len(hist)-1].Ev; len(hist) > 1 && strings.HasPrefix(last, "env:urns") && !redacted {
+		add("resume-environment-not-in-force:redaction-policy", "the resume %q was accepted and carried an environment whose redaction policy hides URNs, but the session's environment still reports policy %q", last, xs[0].Session.Environment().RedactionPolicy())
+		redacted = true
+	}
 	differs := 0
 	firstDiff := ""
 	ctxSources := map[string]bool{} // sources of difference the context walk already reported
